@@ -684,6 +684,297 @@ def run_probes(ctx, stats):
     stats["probes"] = len(PROBES)
 
 
+# ------------------------------------------------------------------------------------------------
+# variables and closures ("... with the handling function's variables intact"): a program of the mini-language that
+# is OUTSIDE every class (classified by Coq on its skeleton) is decorated with
+#   * locals declared before any try statement, read / assigned in try, catch, finally blocks and after,
+#   * locals declared at the start of try / catch / finally / loop blocks (never inside a finally block of a try without
+#     catch clause: finally_local) and captured by closures that ESCAPE to the global vec `out` before the block raises or
+#     is left early: `|| v`, a mutating closure, a closure made by a nested lambda (depth 2), a nested `fn`,
+#   * closures over the catch variable itself;
+# after every top-level try statement, at the end of every function and of the script all visible outer locals are
+# printed and every escaped closure is called.  The oracle is the FULL reference interpreter (SpecScripts.run_case).
+import random as _random
+
+
+class Deco:
+    def __init__(self, seed):
+        self.rng = _random.Random(seed)
+        self.n = 0
+
+    def fresh(self):
+        self.n += 1
+        return "v%d" % self.n
+
+    def escape(self, v):
+        k = self.rng.randrange(5)
+        if k == 0:
+            return "out.push(|| %s); " % v
+        if k == 1:
+            return "out.push(|| { %s = %s + 1; return %s; }); " % (v, v, v)
+        if k == 2:
+            return "out.push((|| || %s)()); " % v
+        if k == 3:
+            g = "g" + v[1:]
+            return "fn %s() { return %s; } out.push(%s); " % (g, v, g)
+        return "out.push(|| (|| %s + 1)()); " % v
+
+    def touch(self, scope):
+        if not scope or self.rng.random() < 0.5:
+            return ""
+        v = self.rng.choice(scope)
+        return self.rng.choice(["%s = %s + 1; " % (v, v), "print(%s); " % v, "%s = %s + 10; print(%s); " % (v, v, v)])
+
+    def prologue(self, scope, decl_ok):
+        """declarations at the start of a block: the FIRST one takes the slot the exception value lands in"""
+        txt = ""
+        new = []
+        if decl_ok and self.rng.random() < 0.8:
+            for _ in range(self.rng.choice([1, 1, 2, 3])):
+                v = self.fresh()
+                txt += "var %s = %d; " % (v, 1000 + self.n)
+                new.append(v)
+            for v in new:
+                if self.rng.random() < 0.75:
+                    txt += self.escape(v)
+        txt += self.touch(scope + new)
+        return txt, new
+
+    def block(self, s, d, ev, iv, scope, decl_ok):
+        pro, new = self.prologue(scope, decl_ok)
+        return "{ " + pro + self.stmt(s, d, ev, iv, scope + new, decl_ok, False) + "} "
+
+    def stmt(self, s, d, ev, iv, scope, decl_ok, top):
+        t = s[0]
+        if t == "skip":
+            return ""
+        if t == "seq":
+            a = self.stmt(s[1], d, ev, iv, scope, decl_ok, top)
+            mid = self.touch(scope) if self.rng.random() < 0.3 else ""
+            return a + mid + self.stmt(s[2], d, ev, iv, scope, decl_ok, top)
+        if t == "print":
+            return "print(%d); " % s[1]
+        if t == "pexc":
+            return "print(%s); " % ev
+        if t == "throw":
+            return "throw %d; " % s[1]
+        if t == "fail":
+            return "nil(); "
+        if t == "nfail":
+            return '"12x".to_num(); '
+        if t == "break":
+            return "break; "
+        if t == "cont":
+            return "continue; "
+        if t == "ret":
+            return "return %d; " % s[1]
+        if t == "call":
+            return "print(f%d()); " % s[1]
+        if t == "ifiter":
+            return "if %s == %d " % (iv, s[1]) + self.block(s[2], d + 1, ev, iv, scope, decl_ok)
+        if t == "loop":
+            i = "i%d" % d
+            return "{ var %s = 0; while %s < %d { %s = %s + 1; " % (i, i, s[1], i, i) + \
+                self.block(s[2], d + 1, ev, i, scope, decl_ok)[2:] + "} "
+        if t == "try":
+            hc, hf = s[2] is not None, s[3] is not None
+            r = "try " + self.block(s[1], d + 1, ev, iv, scope, decl_ok)
+            if hc:
+                e = "e%d" % d
+                body = self.block(s[2], d + 1, e, iv, scope, decl_ok)
+                esc = "out.push(|| %s); " % e if self.rng.random() < 0.5 else ""
+                r += "catch %s { " % e + esc + body[2:]
+            if hf:
+                # without catch clause the finally block is entered one slot higher by exception: no declarations there
+                r += "finally " + self.block(s[3], d + 1, ev, iv, scope, decl_ok and hc)
+            if top:
+                r += self.dump(scope)
+            return r
+        raise ValueError(s)
+
+    def dump(self, scope):
+        self.n += 1
+        j = "j%d" % self.n
+        return "".join("print(%s); " % v for v in scope) + \
+            "{ var %s = 0; while %s < out.len() { print(out[%s]()); %s = %s + 1; } } " % (j, j, j, j, j)
+
+    def function(self, k, body):
+        scope = ["a%d" % k, "b%d" % k]
+        txt = "fn f%d() { var a%d = %d; var b%d = %d; " % (k, k, 100 + k, k, 200 + k)
+        txt += self.stmt(body, 0, "e", "i", scope, True, True)
+        return txt + self.dump(scope) + "} "
+
+
+def decorate(prog, seed):
+    dc = Deco(seed)
+    src = "var out = []; " + "".join(dc.function(k, b) for k, b in enumerate(prog))
+    src += 'try { print(f%d()); } catch ex { print("uncaught"); print(ex); } ' % (len(prog) - 1)
+    src += "var jj = 0; while jj < out.len() { print(out[jj]()); jj = jj + 1; }"
+    return src
+
+
+def ref_result(v):
+    """canonical result of SpecScripts.run_case, or None (fuel / not evaluated)"""
+    import binascii
+    mm = re.match(r"^out=\[([0-9a-f,]*)\];res=(ok|err|fuel)(?::(\w+):\[([0-9a-f,]*)\])?", v or "")
+    if not mm or mm.group(2) == "fuel":
+        return None
+    out = [binascii.unhexlify(x).decode("utf-8", "replace") for x in mm.group(1).split(",") if x] if mm.group(1) else []
+    ref = ",".join(norm_line(l) for l in out)
+    if mm.group(2) == "ok":
+        return ref + "/D"
+    msgs = [binascii.unhexlify(x).decode("utf-8", "replace") for x in (mm.group(4) or "").split(",") if x]
+    m0 = msgs[0] if msgs else ""
+    m1 = re.match(r"^Unhandled exception: (.*)$", m0)
+    m2 = re.match(r"^Unhandled (\w+): ", m0)
+    return ref + "/U:" + (norm_line(m1.group(1)) if m1 else m2.group(1) if m2 else "?" + m0)
+
+
+def refspec_available():
+    return all(os.path.exists(os.path.join(yvlib.COQ, "theories", f)) for f in ("SpecRun.vo", "ParseRun.vo", "SpecScripts.vo"))
+
+
+def captured_at_raise(rec):
+    """measured on the REAL trace: is an exception raised (Throw dispatched, or a Call/Invoke after which a handler is
+    gone) while a captured variable lives at or above the height of the handler that receives it?"""
+    names = opnames()
+    rows = rec.tagged("T")
+    hit = False
+    for k, f in enumerate(rows):
+        op = names[int(f[3])] if int(f[3]) < len(names) else "?"
+        hf = [x for x in f if x.startswith("h:")]
+        uf = [x for x in f if x.startswith("u:")]
+        if not hf or len(hf[0]) <= 2 or not uf or len(uf[0]) <= 2:
+            continue
+        hs = [h.split(",") for h in hf[0][2:].split(";")]
+        top = int(hs[-1][2])
+        ups = [int(x) for x in uf[0][2:].split(",") if x]
+        raised = op == "Throw"
+        if op in ("Call", "Invoke") and k + 1 < len(rows):
+            nh = [x for x in rows[k + 1] if x.startswith("h:")]
+            n2 = len(nh[0][2:].split(";")) if nh and len(nh[0]) > 2 else 0
+            raised = n2 < len(hs)      # a call never pops a handler unless it fails
+        if raised and any(u >= top for u in ups):
+            hit = True
+    return hit
+
+
+def run_decorated(ctx, items):
+    """items: [(prog, seed)] -> [(src, impl, ref, rec)]"""
+    import binascii
+    srcs = [decorate(p, sd) for p, sd in items]
+    recs = yvlib.run_harness(ctx.harness("release"), ["trace - 20000 " + hx(s_) for s_ in srcs], case_timeout_ms=10000)
+    terms = ['run_case 400 [] "%s"' % binascii.hexlify(s_.encode()).decode() for s_ in srcs]
+    vals = yvlib.coq_eval(["YV:SpecScripts"], terms, shard_size=max(4, (len(terms) + 31) // 32), tag="C08deco",
+                          preamble="Open Scope string_scope.\n")
+    return [(s_, impl_result(r), ref_result(v), r) for s_, r, v in zip(srcs, recs, vals)]
+
+
+def closure_family(ctx, results, stats, n):
+    if not refspec_available():
+        ctx.notes.append("SpecRun/ParseRun/SpecScripts not built: the variables-and-closures family is skipped")
+        return
+    base = [r for r in results if r["wf"] and r["cls"] is None]
+    rng = ctx.rng
+    # programs with try statements first; every program gets its own decoration seed
+    base.sort(key=lambda r: -r["wire"].count("6 "))
+    picked = base[:n]
+    items = [(r["prog"], rng.randrange(1 << 30)) for r in picked]
+    outs = run_decorated(ctx, items)
+    stats["deco_programs"] = 0
+    stats["deco_ref_failed"] = 0
+    stats.setdefault("deco_nontrivial", set())
+    bad = []
+    for (prog, seed), (src, impl, ref, rec) in zip(items, outs):
+        if ref is None:
+            stats["deco_ref_failed"] += 1
+            continue
+        stats["deco_programs"] += 1
+        if captured_at_raise(rec):
+            stats["deco_nontrivial"].add(src)
+        if impl != ref:
+            bad.append({"prog": prog, "seed": seed, "src": src, "impl": impl, "ref": ref})
+    for k, b in enumerate(bad[:3]):
+        small = shrink_decorated(ctx, b) if k == 0 else b
+        ctx.violation("variables / escaped closures differ from the reference semantics after exception handling "
+                      "(program outside the known classes)", input=small["src"], expected=small["ref"], actual=small["impl"],
+                      wire=wire(small["prog"]), deco_seed=small["seed"])
+    stats["deco_mismatch"] = len(bad)
+    if stats["deco_programs"]:
+        stats["deco_sample"] = outs[0][0]
+
+
+def shrink_decorated(ctx, b, budget=12):
+    cur = b
+    progress = True
+    while progress and budget > 0:
+        progress = False
+        prog = cur["prog"]
+        cands = list(drop_unused_functions(prog))
+        for fi in range(len(prog)):
+            for a in subterms_replace(prog[fi]):
+                cands.append(prog[:fi] + [a] + prog[fi + 1:])
+        cands.sort(key=lambda p_: len(wire(p_)))
+        batch = cands[:16]
+        if not batch:
+            break
+        budget -= 1
+        cls = evaluate(ctx, batch, "decoshrink", want_trace=False)
+        ok = [x["prog"] for x in cls if x["wf"] and x["cls"] is None]
+        if not ok:
+            continue
+        outs = run_decorated(ctx, [(p_, cur["seed"]) for p_ in ok])
+        for p_, (src, impl, ref, rec) in zip(ok, outs):
+            if ref is not None and impl != ref and len(src) < len(cur["src"]):
+                cur = {"prog": p_, "seed": cur["seed"], "src": src, "impl": impl, "ref": ref}
+                progress = True
+                break
+    return cur
+
+
+# hand-written shapes of the same family (expectation = the reference interpreter)
+DIRECTED = [
+    'var out = []; fn mk() { try { var first = 1; var second = 2; out.push(|| first); out.push(|| second); throw 7; } '
+    'catch e { print(e); } } mk(); print(out[0]()); print(out[1]());',
+    'var keep = nil; fn fail() { return [1][3]; } try { var counter = 10; keep = || { counter = counter + 1; return counter; }; '
+    'fail(); } catch e { print(type(e)); } print(keep()); print(keep());',
+    'var out = []; fn g(n) { if n == 0 { "12x".to_num(); } return g(n - 1); } fn f() { var a = 1; try { var x = 5; '
+    'out.push(|| x); a = a + 1; g(2); } catch e { a = a + 10; out.push(|| e); } finally { var z = 3; out.push(|| z + a); } '
+    'print(a); } f(); print(out[0]()); print(out[1]()); print(out[2]());',
+    'var out = []; fn f() { var a = 1; while a < 4 { a = a + 1; try { var x = a * 10; out.push(|| x); if a == 3 { break; } '
+    'if a == 2 { continue; } } catch e { print(e); } } print(a); } f(); for c in out { print(c()); }',
+    'var out = []; fn f() { try { var x = 1; out.push(|| { x = x + 1; return x; }); return x; } finally { print("fin"); } } '
+    'print(f()); print(out[0]()); print(out[0]());',
+    'var out = []; fn f() { try { try { var x = 1; out.push(|| x); nil(); } finally { print("f1"); } } catch e { var y = 2; '
+    'out.push(|| y); out.push(|| e); } } f(); print(out[0]()); print(out[1]()); print(out[2]());',
+    'var out = []; fn f() { try { var x = 1; fn g() { var y = 2; out.push(|| x + y); throw x + y; } g(); } catch e { print(e); } } '
+    'f(); print(out[0]());',
+]
+
+
+def run_directed(ctx, stats):
+    import binascii
+    if not refspec_available():
+        return
+    recs = yvlib.run_harness(ctx.harness("release"), ["trace - 20000 " + hx(s_) for s_ in DIRECTED], case_timeout_ms=10000)
+    drecs = yvlib.run_harness(ctx.harness("debug"), ["run - " + hx(s_) for s_ in DIRECTED], case_timeout_ms=20000)
+    vals = yvlib.coq_eval(["YV:SpecScripts"], ['run_case 400 [] "%s"' % binascii.hexlify(s_.encode()).decode() for s_ in DIRECTED],
+                          shard_size=2, tag="C08dir", preamble="Open Scope string_scope.\n")
+    stats.setdefault("deco_nontrivial", set())
+    for src, r, dr, v in zip(DIRECTED, recs, drecs, vals):
+        ref = ref_result(v)
+        if ref is None:
+            ctx.broken.append("the reference interpreter did not evaluate the directed closure program: " + src[:200])
+            continue
+        if captured_at_raise(r):
+            stats["deco_nontrivial"].add(src)
+        for got in (impl_result(r), impl_result(dr)):
+            if got != ref:
+                stats["violations"].append({"src": src, "spec": ref, "impl": got, "m": None, "wire": "", "prog": None})
+                break
+    stats["directed_closure_programs"] = len(DIRECTED)
+
+
 WITNESSES = [("wit_early_exit_break", "early_exit_skips_finally"), ("wit_early_exit_return2", "early_exit_skips_finally"),
              ("wit_early_exit_catch", "early_exit_skips_finally"), ("wit_return_no_finally", "return_in_try_catch_no_finally"),
              ("wit_finally_local", "finally_local"), ("wit_he_global_nested", "handling_exception_global"),
@@ -756,6 +1047,13 @@ def run(ctx):
     quick = ctx.quick()
     rng = ctx.rng
     stats = {"total": 0, "not_wf": 0, "steps": 0, "traces_ok": 0, "m_undefined": 0, "nontrivial": set(), "violations": []}
+    if ctx.replay_only and ctx.replay_only.get("deco_seed") is not None:
+        src, impl, ref, _ = run_decorated(ctx, [(unwire(ctx.replay_only["wire"]), ctx.replay_only["deco_seed"])])[0]
+        if ref is not None and impl != ref:
+            ctx.violation("variables / escaped closures differ from the reference semantics after exception handling",
+                          input=src, expected=ref, actual=impl, wire=ctx.replay_only["wire"], deco_seed=ctx.replay_only["deco_seed"])
+        ctx.cov.update({"evaluations": 1, "distinct_nontrivial": 0, "rule": "replay", "samples": [src]})
+        return
     if ctx.replay_only:
         w = ctx.replay_only.get("wire")
         if w:
@@ -765,6 +1063,7 @@ def run(ctx):
         return
     replay_witnesses(ctx, stats)
     run_probes(ctx, stats)
+    run_directed(ctx, stats)
     progs = systematic()
     nsys = len(progs)
     n_safe, n_wild = (330, 150) if quick else (7000, 3000)
@@ -783,6 +1082,7 @@ def run(ctx):
     for r in results:
         judge(ctx, r, stats)
     refspec_compare(ctx, results if not quick else results[:nsys + 120], stats, "gen")
+    closure_family(ctx, results, stats, 260 if quick else 3000)
     finish(ctx, stats, results)
 
 
@@ -832,15 +1132,23 @@ def unwire(w):
 def finish(ctx, stats, results):
     # violations outside the classes: shrink the first, keep at most 5
     viol = stats["violations"]
+    stats.setdefault("nontrivial", set())
     for k, r in enumerate(viol[:5]):
         small = shrink(ctx, r) if (k == 0 and r.get("prog")) else r
         ctx.violation("printed trace / outcome differs from the Spec outside the known classes", input=small["src"],
                       expected=small["spec"], actual=small["impl"], model=small["m"], wire=small["wire"])
     samples = [r["src"] for r in results[-3:]] + [r["src"] for r in results if r["wire"] in stats["nontrivial"]][:2]
+    deco_nt = stats.pop("deco_nontrivial", set())
+    deco_sample = stats.pop("deco_sample", None)
+    if deco_sample:
+        samples.append(deco_sample)
+    stats["deco_nontrivial_count"] = len(deco_nt)
     ctx.cov.update({
-        "evaluations": stats["total"],
-        "distinct_nontrivial": len(stats["nontrivial"]),
-        "rule": "generated programs (systematic throw-site x shape x exit-path table + random 'safe' and 'wild' ASTs, "
+        "evaluations": stats["total"] + stats.get("deco_programs", 0) + stats.get("directed_closure_programs", 0),
+        "distinct_nontrivial": len(stats["nontrivial"]) + len(deco_nt),
+        "rule": "variables-and-closures family (programs outside the classes decorated with outer locals and escaping "
+                "closures, oracle = the full reference interpreter): non-trivial = the REAL trace raises an exception while "
+                "a captured variable lives at or above the height of the receiving handler; PLUS generated programs (systematic throw-site x shape x exit-path table + random 'safe' and 'wild' ASTs, "
                 "nesting <= 4, 1-4 functions, calls at depth 1-3); distinct by wire encoding; non-trivial = the REAL "
                 "trace (hook H4) dispatches Throw (or a failing Call) while >= 2 handlers are active, or dispatches "
                 "EndFinally with handling_exception or a pending return set",
